@@ -315,6 +315,7 @@ def run(res: Results, idx: Index, tier: str) -> None:
 
     # ---------------- R-C17e  (range proof ingredients)
     _rule_e(res, idx, m, dts, tier)
+    _rule_f(res, idx, tier)
 
     # positive control: a permissive predicate must be caught by the reference
     res.control("R-C17b", "reference rejects INT32->FLOAT->INT32, FLOAT->FLOAT16->FLOAT, INT64->DOUBLE->INT64, UINT8->INT8->UINT8, DOUBLE->COMPLEX64",
@@ -569,3 +570,23 @@ def _rule_d(res: Results, idx: Index) -> None:
             if neq_true and not decision_ok:
                 miss.append("neither _cast_roundtrip_is_value_preserving(src_dtype, target_code) nor the range proof dominates the mutation")
             res.violation("R-C17d", site, key, "; ".join(miss + detail), f.qualname)
+
+
+def _rule_f(res: Results, idx: Index, tier: str) -> None:
+    """remove_redundant_casts_ir decides "this Cast is an identity" from a name -> dtype map (`_collect_value_dtypes`).  The map
+    must hold DECLARED types: an entry that an output inherits from its input is right only for operators whose schema output
+    type equals their input type (C08 R-C08d oracle).  Letting the outputs of `UNARY_DATAFLOW_OPS` inherit — the table also
+    contains Cast and CastLike — labels `Cast(x:T, to=U)` as T, and the following `Cast(to=T)` is dropped as an identity."""
+    res.rule("R-C17f", "the dtype map consulted by the cast elimination lets an output inherit its input's type only for type-preserving operators (C08 R-C08d)", floor=1)
+    from . import c08
+    sub = Results("C08", tier)
+    setattr(sub, "_nested_xref", True)
+    c08.rule_d(sub, idx)
+    hits = [i for i in sub.instances if i.rule == "R-C08d" and "_collect_value_dtypes" in i.key]
+    f = idx.find_func(OPT, "_collect_value_dtypes")
+    if f is None:
+        raise AnalysisError("_collect_value_dtypes not found")
+    if not hits:
+        res.ok("R-C17f", f.site, f"{OPT}::_collect_value_dtypes::declared-types-only", "the map records declared element types only (no entry is inherited from a node's input)", f.qualname)
+    for inst in hits:
+        res.add("R-C17f", inst.status, inst.site, f"R-C08d::{inst.key}", f"[C08 R-C08d] {inst.detail}", inst.func)
